@@ -1440,7 +1440,7 @@ func (fv *funcVerifier) varShift(st *State, name string, l, r smt.Term, t types.
 		if name == "shl" {
 			v = smt.Mod(smt.Mul(l, smt.BigLit(pow2(k))), smt.BigLit(pow2(bits)))
 			if lo, _, ok := intRange(t); ok && lo.Sign() < 0 {
-				v = res // signed variable shl: keep uninterpreted
+				v = res // signed variable shl: uninterpreted, with the range facts added below
 			}
 			if k >= bits {
 				v = smt.IntLit(0)
@@ -1457,6 +1457,18 @@ func (fv *funcVerifier) varShift(st *State, name string, l, r smt.Term, t types.
 	}
 	v := fv.c.Let(name, out)
 	fv.assume(st, fv.so.valid(v, t, st.frontier))
+	if lo, _, ok := intRange(t); ok && lo.Sign() < 0 && name == "shl" {
+		// signed l << r stays uninterpreted (an exact case split per shift count makes every query
+		// of the function heavy); what is known without overflow: for 0 <= l < 2^(bits-1-t) and
+		// 0 <= r <= t the result lies in [l, l*2^t]
+		for _, t := range []int{8, 16, 24, 32, 40, 48, 56, 62} {
+			if t >= bits-1 {
+				continue
+			}
+			fv.assume(st, smt.Implies(smt.And(smt.Ge(l, smt.IntLit(0)), smt.Lt(l, smt.BigLit(pow2(bits-1-t))), smt.Ge(r, smt.IntLit(0)), smt.Le(r, smt.IntLit(int64(t)))),
+				smt.And(smt.Ge(v, l), smt.Le(v, smt.Mul(l, smt.BigLit(pow2(t)))))))
+		}
+	}
 	return v
 }
 
